@@ -30,6 +30,7 @@ class Built:
         self.modules = {}
         self.objs = {}  # (mname, attrname) -> hdl21 object
         self.roles = {}
+        self._mult = {}
 
     @property
     def top(self):
@@ -40,6 +41,9 @@ def build_bundle(design, bname, built):
     if bname in built.bundles:
         return built.bundles[bname]
     bd = design["bundles"][bname]
+    if bd.get("builtin") == "Diff":
+        built.bundles[bname] = h.Diff
+        return h.Diff
     b = h.Bundle(name=bname)
     roles = bd.get("roles")
     if roles:
@@ -149,7 +153,23 @@ def _mk_obj(design, d, built):
         return b(flipped=bool(d[3]), **kw)
     if kind == "binst":
         b = build_bundle(design, d[2], built)
-        return b()
+        via = d[3] if len(d) > 3 else "ctor"
+        if via == "ctor":
+            return b()
+        if via == "flipped":
+            return h.flipped(b())
+        if via == "copy":
+            import copy as _copy
+
+            return _copy.copy(b())
+        if via == "mult":  # one `n * B()` call per group, handed out in declaration order
+            grp = (d[2], d[4])
+            pool = built._mult.get(grp)
+            if not pool:
+                n = sum(1 for m in design["modules"].values() for x in m["decls"] if x[0] == "binst" and len(x) > 4 and x[3] == "mult" and (x[2], x[4]) == grp)
+                pool = built._mult[grp] = list(n * b())
+            return pool.pop(0)
+        raise ValueError(via)
     if kind == "inst":
         return h.Instance(of=target_of(design, d[2], built))
     if kind == "array":
